@@ -366,10 +366,14 @@ def channels_5a3(facts, rep, R1):
         mode = None
         for (bb, term, vals, neg, dty) in p.conds:
             ct = cond_truth((term, vals, neg, dty))
-            if ct and ct[0][0] == "bin" and ct[0][1] == "Eq" and ct[0][3] == ("const", 0, "u16"):
+            if ct and ct[0][0] == "bin" and ct[0][1] in ("Eq", "Ne") and ct[0][3][:2] == ("const", 0):
                 m = [x for x in walk(ct[0][2]) if x[0] == "const" and x[1] == 0x8000]
                 if m:
-                    mode = "transparent" if ct[1] else "opaque"
+                    clear = (ct[0][1] == "Eq") == ct[1]          # bit 15 is clear on this arm
+                    mode = "transparent" if clear else "opaque"
+            elif ct and ct[0][0] == "bin" and ct[0][1] in ("Lt", "Ge") and ct[0][3][:2] == ("const", 0x8000) and strip_refs(ct[0][2])[0] == "param":
+                clear = (ct[0][1] == "Lt") == ct[1]              # value < 0x8000
+                mode = "transparent" if clear else "opaque"
         arr = None
         for e in p.events:
             if e["k"] == "write" and e["val"][0] == "agg" and e["val"][1] == "array" and len(e["val"][4]) == 4:
@@ -379,6 +383,9 @@ def channels_5a3(facts, rep, R1):
     for mode, spec in SPEC_5A3.items():
         arr = seen.get(mode)
         if not arr:
+            if not seen:
+                rep.inconc(R1, "RGB5A3: the test of bit 15 that selects the mode was not recognised")
+                break
             for ci in range(4):
                 rep.violation(R1, b.name, "mode-missing:%s:%d" % (mode, ci), "RGB5A3 %s mode (bit 15) has no branch" % mode, where)
             continue
